@@ -33,17 +33,6 @@ Definition fnum_arith (fz : Z -> Z -> Z) (ff : float -> float -> float) (x y : f
    literals are dyadic with small numerators) *)
 Definition Q2F (q : Q) : float := PrimFloat.div (Z2F (Qnum q)) (Z2F (Zpos (Qden q))).
 
-Fixpoint feval (n : Z) (b : bexpr) : fnum :=
-  match b with
-  | BInt z => FI z
-  | BReal q => FR (Q2F q)
-  | BN => FI n
-  | BAdd a c => fnum_arith Z.add PrimFloat.add (feval n a) (feval n c)
-  | BSub a c => fnum_arith Z.sub PrimFloat.sub (feval n a) (feval n c)
-  | BMul a c => fnum_arith Z.mul PrimFloat.mul (feval n a) (feval n c)
-  | BDiv a c => fnum_arith Z.quot PrimFloat.div (feval n a) (feval n c)
-  end.
-
 Definition SF2Q (f : spec_float) : option Q :=
   match f with
   | S754_zero _ => Some 0%Q
@@ -54,15 +43,33 @@ Definition SF2Q (f : spec_float) : option Q :=
 
 Definition F2Q (f : float) : option Q := SF2Q (Prim2SF f).
 
+Definition F2Z (f : float) : Z := match F2Q f with Some q => Qtrunc q | None => 0 end.
+
+Fixpoint feval (E : env) (b : bexpr) : fnum :=
+  match b with
+  | BInt z => FI z
+  | BReal q => FR (Q2F q)
+  | BN => FI (e_n E)
+  | BDim => FI (e_dim E)
+  | BParam k t => match param_num t (e_get E k) with NI z => FI z | NR q => FR (Q2F q) end
+  | BTrunc a => match feval E a with FI z => FI z | FR f => FI (F2Z f) end
+  | BAdd a c => fnum_arith Z.add PrimFloat.add (feval E a) (feval E c)
+  | BSub a c => fnum_arith Z.sub PrimFloat.sub (feval E a) (feval E c)
+  | BMul a c => fnum_arith Z.mul PrimFloat.mul (feval E a) (feval E c)
+  | BDiv a c => fnum_arith Z.quot PrimFloat.div (feval E a) (feval E c)
+  end.
+
 (* q is (the exact value of) a normal binary64 number with a small exponent *)
 Definition is_double (q : Q) : bool :=
   let r := Qred q in
   let d := Zpos (Qden r) in
   (2 ^ Z.log2 d =? d) && (Z.abs (Qnum r) <? 2 ^ 53) && (Z.log2 d <? 1000).
 
+Definition env_N (n : Z) : env := {| e_n := n; e_dim := 0; e_get := fun _ => None |}.
+
 Definition float_bound_ok (b : bexpr) (n : Z) : bool :=
-  let exact := num_Q (eval_bexpr n b) in
-  match F2Q (fnum_F (feval n b)) with
+  let exact := num_Q (eval_bexpr (env_N n) b) in
+  match F2Q (fnum_F (feval (env_N n) b)) with
   | None => false
   | Some f =>
       Qle_bool (Qabs (f - exact) * inject_Z (2 ^ 53)) (Qabs exact) &&
